@@ -1,0 +1,62 @@
+//go:build verif
+
+// Contracts for the deductive verification in /verif (govc). Comment-only:
+// with the build tag off this file is not compiled, with it on it declares nothing.
+package generator
+
+// ---------------------------------------------------------------------------
+// C07: the range writer knows where it is. Ghost out(rw.w) = bytes accepted by the underlying writer.
+//
+// rwOK: the writer's position is the position of the end of what it has written (byte offset, number of
+// line feeds, bytes after the last line feed). nlCount(s, i) / lineStart(s, i): number of line feeds in
+// s[:i] / offset just after the last of them.
+//@ spec colAfter(col0, s, i) = ite(nlCount(s, i) == 0, col0 + i, i - lineStart(s, i))
+//@ spec rwOK(rw) = rw.Current.Index == len(out(rw.w)) && rw.Current.Line == nlCount(out(rw.w), len(out(rw.w))) && rw.Current.Col == len(out(rw.w)) - lineStart(out(rw.w), len(out(rw.w)))
+
+// write(s): the returned range starts at the position before the write and ends at the position after it;
+// the output only grows and the position stays in step with it; for well-formed UTF-8 exactly the bytes of
+// s are appended (ill-formed bytes are re-encoded as U+FFFD by the range loop - outside the claim).
+//@ func (*RangeWriter) write [C07]
+//@   requires rw != nil && rwOK(rw)
+// machine arithmetic: line, column and index counters do not wrap (generated files are far below 2 GiB)
+//@   assume entry: len(out(rw.w)) + 4*len(s) < 1<<31
+//@   modifies rw.Current, out(rw.w), failedDuring
+//@   ensures r.From == old(rw.Current)
+//@   ensures implies(err == nil, rwOK(rw) && r.To == rw.Current && isPrefix(old(out(rw.w)), out(rw.w)) && len(out(rw.w)) <= old(len(out(rw.w))) + 4*len(s))
+//@   ensures implies(err == nil && inL(s, UTF8_VALID), out(rw.w) == cat(old(out(rw.w)), s))
+//@   ensures implies(err == nil && inL(s, UTF8_VALID), rw.Current.Line == old(rw.Current.Line) + nlCount(s, len(s)) && rw.Current.Col == colAfter(old(rw.Current.Col), s, len(s)))
+//@   loop 1 invariant err == nil && len(utf8Bytes) == 4 && r.From == old(rw.Current)
+//@   loop 1 invariant rwOK(rw)
+//@   loop 1 invariant isPrefix(old(out(rw.w)), out(rw.w)) && len(out(rw.w)) <= old(len(out(rw.w))) + 4*iter
+//@   loop 1 invariant implies(inL(s, UTF8_VALID), out(rw.w) == cat(old(out(rw.w)), s[:iter]))
+//@   loop 1 invariant implies(inL(s, UTF8_VALID), rw.Current.Line == old(rw.Current.Line) + nlCount(s, iter) && rw.Current.Col == colAfter(old(rw.Current.Col), s, iter))
+
+// Write / WriteIndent: a pending string literal is flushed first, then (the indentation and) s is written;
+// the returned range is the range of s itself.
+//@ spec wroteLast(rw, r, s) = rwOK(rw) && r.To == rw.Current && implies(inL(s, UTF8_VALID), isSuffix(s, out(rw.w)) && r.From.Index == len(out(rw.w)) - len(s) && r.To.Line == r.From.Line + nlCount(s, len(s)) && r.To.Col == colAfter(r.From.Col, s, len(s)))
+
+//@ func (*RangeWriter) Write [C07]
+//@   requires rw != nil && rwOK(rw) && rw.builder != nil
+//@   modifies rw.inLiteral, rw.index, rw.Literals, out(rw.builder), rw.Current, out(rw.w), failedDuring
+//@   ensures implies(err == nil, wroteLast(rw, r, s) && isPrefix(old(out(rw.w)), out(rw.w)) && rw.builder != nil)
+
+//@ func (*RangeWriter) WriteIndent [C07]
+//@   requires rw != nil && rwOK(rw) && rw.builder != nil && level >= 0
+//@   modifies rw.inLiteral, rw.index, rw.Literals, out(rw.builder), rw.Current, out(rw.w), failedDuring
+//@   ensures implies(err == nil, wroteLast(rw, r, s) && isPrefix(old(out(rw.w)), out(rw.w)) && rw.builder != nil)
+
+//@ func (*RangeWriter) closeLiteral [C07]
+//@   requires rw != nil && rwOK(rw) && rw.builder != nil && indent >= 0
+//@   modifies rw.inLiteral, rw.index, rw.Literals, out(rw.builder), rw.Current, out(rw.w), failedDuring
+//@   ensures implies(err == nil, rwOK(rw) && isPrefix(old(out(rw.w)), out(rw.w)) && rw.builder != nil)
+
+//@ func (*RangeWriter) writeErrorHandler [C07]
+//@   requires rw != nil && rwOK(rw) && rw.builder != nil && indentLevel >= 0
+//@   running implies(err == nil, isPrefix(old(out(rw.w)), out(rw.w)))
+//@   modifies rw.inLiteral, rw.index, rw.Literals, out(rw.builder), rw.Current, out(rw.w), failedDuring
+//@   ensures implies(err == nil, rwOK(rw) && isPrefix(old(out(rw.w)), out(rw.w)) && rw.builder != nil)
+
+//@ func (*RangeWriter) WriteStringLiteral [C07]
+//@   requires rw != nil && rw.builder != nil
+//@   modifies rw.inLiteral, out(rw.builder)
+//@   ensures err == nil
